@@ -944,6 +944,9 @@ func (repo *Repository) consolidate(ctx context.Context) error {
 
 			continue
 		}
+		if newBranch == nil {
+			continue // all headers are already in the new branches
+		}
 		newBranches = append(newBranches, newBranch)
 	}
 
